@@ -25,7 +25,7 @@ const octHugeMax = 4
 
 func init() {
 	// c12 <hex|-> <op> ... ; ops: sb sy sh si sl (stream) rb ry rh ri rl (reader) v B S n<k>
-	register("c12", func(toks []string) string {
+	register("c12", octKeptWrap(func(toks []string) string {
 		var input = unhex(toks[1])
 		var stream = &iox.OctetsStream{}
 		_ = stream.Write(input)
@@ -83,7 +83,7 @@ func init() {
 			rs = append(rs, fmt.Sprintf("%s@%d/%d+%d", r, stream.Position(), stream.Len(), d))
 		}
 		return "R=" + strings.Join(rs, ";")
-	})
+	}))
 }
 
 // hostilePrefix: the next uvarint announces more than 64 MiB and more than what is left.
